@@ -53,7 +53,7 @@ func c06CheckCommon(orig []types.MicroReport, agg *types.Aggregate) {
 func VerifC06_median() {
 	ctx, _, _ := ndEnv("oracle")
 	n := 1 + ndLen("n", c06N())
-	reports := vReports(n, 1<<60, "")
+	reports := vReports(n, 1<<61, "")
 	orig := vCopyReports(reports)
 	var k Keeper
 	agg, err := k.WeightedMedian(ctx, reports, 7)
@@ -82,7 +82,7 @@ func VerifC06_median() {
 func VerifC06_median_order() {
 	ctx, _, _ := ndEnv("oracle")
 	n := 2 + ndLen("n", c06N()-1)
-	reports := vReports(n, 1<<60, "")
+	reports := vReports(n, 1<<61, "")
 	// second run on a rotated / swapped copy
 	perm := vCopyReports(reports)
 	switch ndPick("perm", 3) {
